@@ -2,6 +2,7 @@
 #include "coloquinte.hpp"
 #include "place_detailed/incr_net_model.hpp"
 #include "place_detailed/row_legalizer.hpp"
+#include "place_detailed/detailed_placement.hpp"
 #include <algorithm>
 #include "json.hpp"
 #include "project.hpp"
@@ -203,6 +204,116 @@ inline Value handleRowLeg(const Value &v) {
   return r;
 }
 
+// ---- C02 / C04: the row data structure of detailed placement. For one state of the DetailedRows model, every feasible swap and
+// insert (according to the real object and according to the specification) is applied to a freshly constructed real
+// DetailedPlacement; the resulting real states are emitted for validation by TLC (TraceAlgo.DetRes).
+inline DetailedPlacement makeDetailed(const Value &v) {
+  int len = (int)v["len"].asInt();
+  std::vector<Row> rows;
+  static const CellOrientation so[3] = {CellOrientation::N, CellOrientation::FS, CellOrientation::S};
+  for (int s = 0; s < 3; ++s) rows.emplace_back(0, len, s, s + 1, so[s]);
+  const Value &cells = v["cells"];
+  int n = (int)cells.size();
+  std::vector<int> w(n), x(n), y(n), idx(n);
+  std::vector<CellOrientation> o(n);
+  std::vector<CellRowPolarity> p(n);
+  for (int i = 0; i < n; ++i) {
+    w[i] = (int)cells[i]["w"].asInt();
+    x[i] = (int)cells[i]["x"].asInt();
+    y[i] = (int)cells[i]["seg"].asInt() - 1;
+    o[i] = vp::orientFrom(cells[i]["o"].asStr());
+    p[i] = vp::polFrom(cells[i]["pol"].asStr());
+    idx[i] = i;
+  }
+  return DetailedPlacement(rows, w, x, y, o, p, idx);
+}
+inline Value detCells(const DetailedPlacement &pl, const Value &from) {
+  Value a = Value::array();
+  for (int i = 0; i < pl.nbCells(); ++i) {
+    Value e = Value::object();
+    e.set("w", pl.cellWidth(i)).set("pol", from[i]["pol"]).set("seg", pl.cellY(i) + 1).set("x", pl.cellX(i)).set("o", vp::orientName(pl.cellOrientation(i)));
+    e.set("row", pl.cellRow(i) + 1);
+    a.push(e);
+  }
+  return a;
+}
+inline Value handleDetState(const Value &v) {
+  const Value &cells = v["cells"];
+  int n = (int)cells.size();
+  Value events = Value::array();
+  auto inSet = [&](const Value &set, std::initializer_list<int> key) {
+    for (size_t k = 0; k < set.size(); ++k) {
+      bool eq = set[k].size() == key.size();
+      size_t j = 0;
+      for (int q : key) {
+        if (eq && set[k][j].asInt() != q) eq = false;
+        ++j;
+      }
+      if (eq) return true;
+    }
+    return false;
+  };
+  auto record = [&](const char *act, std::initializer_list<int> args, bool canSpec, bool canReal, DetailedPlacement *res, const std::string &threw) {
+    Value e = Value::object();
+    e.set("e", "DetRes").set("len", v["len"]).set("from", cells).set("act", act);
+    Value a = Value::array();
+    for (int q : args) a.push(q);
+    e.set("args", a).set("canSpec", canSpec).set("canReal", canReal).set("threw", threw);
+    e.set("res", res ? detCells(*res, cells) : Value::array());
+    std::string chk = "";
+    if (res) {
+      try {
+        res->check();
+      } catch (std::exception &ex) {
+        chk = ex.what();
+      }
+    }
+    e.set("check", chk);
+    events.push(e);
+  };
+  DetailedPlacement base = makeDetailed(v);
+  for (int a = 0; a < n; ++a)
+    for (int b = a + 1; b < n; ++b) {
+      bool canSpec = inSet(v["swaps"], {a + 1, b + 1});
+      bool canReal = base.canSwap(a, b);
+      if (!canSpec && !canReal) continue;
+      DetailedPlacement pl = makeDetailed(v);
+      std::string threw;
+      if (canReal) {
+        try {
+          pl.swap(a, b);
+        } catch (std::exception &ex) {
+          threw = ex.what();
+        }
+      }
+      record("swap", {a + 1, b + 1}, canSpec, canReal, canReal ? &pl : nullptr, threw);
+    }
+  for (int c = 0; c < n; ++c)
+    for (int s = 0; s < 3; ++s)
+      for (int p = -1; p < n; ++p) {
+        if (p >= 0 && base.cellRow(p) != s) {
+          if (inSet(v["inserts"], {c + 1, s + 1, p + 1})) record("insert", {c + 1, s + 1, p + 1}, true, false, nullptr, "predecessor not in that row");
+          continue;
+        }
+        bool canSpec = inSet(v["inserts"], {c + 1, s + 1, p + 1});
+        bool canReal = base.canInsert(c, s, p);
+        if (!canSpec && !canReal) continue;
+        DetailedPlacement pl = makeDetailed(v);
+        std::string threw;
+        if (canReal) {
+          try {
+            pl.insert(c, s, p);
+          } catch (std::exception &ex) {
+            threw = ex.what();
+          }
+        }
+        record("insert", {c + 1, s + 1, p + 1}, canSpec, canReal, canReal ? &pl : nullptr, threw);
+      }
+  Value r = Value::object();
+  r.set("ok", true).set("emit", events);
+  return r;
+}
+
 inline Value handle(const Value &v) {
   const std::string &k = v["k"].asStr();
   if (k == "pin") return handlePin(v);
@@ -210,6 +321,7 @@ inline Value handle(const Value &v) {
   if (k == "incr") return handleIncr(v);
   if (k == "free") return handleFree(v);
   if (k == "rowleg") return handleRowLeg(v);
+  if (k == "detstate") return handleDetState(v);
   return Value();
 }
 }  // namespace vr
